@@ -126,7 +126,7 @@ def gen_cases(ctx):
 
 
 def cost(c):
-    return 5 + sum(1 + sum(3 + 2 * len(ch["descs"]) for ch in s["chars"]) for s in c["profile"])
+    return 5 + sum(cost({"profile": b}) for b in c.get("before", [])) + sum(1 + sum(3 + 2 * len(ch["descs"]) for ch in s["chars"]) for s in c["profile"])
 
 
 # ---------------------------------------------------------------------------
@@ -237,6 +237,8 @@ def run(ctx):
     for ci, (c, r) in enumerate(zip(cases, results)):
         d = r["disc"]
         info = {"case": ci, "tag": c["tag"], "profile": c["profile"], "mtu": c["mtu"]}
+        if c.get("before"):
+            info["before"] = c["before"]      # devices discovered earlier in the same process
         k = "ok" if d.get("ok") else ("spin" if d.get("spin") or d.get("hang") else d.get("exc", "?"))
         stats["outcomes"][k] = stats["outcomes"].get(k, 0) + 1
         if c.get("mtu", 23) != 23 and r.get("set_mtu", {}).get("v") != c["mtu"]:
@@ -382,6 +384,8 @@ def replay(payload):
     req = {"profile": case["profile"], "mtu": case.get("mtu", 23)}
     if case.get("primary_from") is not None:
         req["primary_from"] = case["primary_from"]; req["cap"] = 400
+    if case.get("before"):
+        req["before"] = case["before"]
     r = C.run_impl(U.DRIVER, {"mode": "c10", "cases": [req]})["cases"][0]
     print("mtu:", req["mtu"], "outcome:", json.dumps(r["disc"])[:300], "pdus:", r["npdu"])
     if isinstance(r.get("discovered"), list):
